@@ -197,6 +197,24 @@ def check_encoders(out, facts, S):
                     except ArithPanic:
                         tag = None
                     bound, body = _is_counter_star(outs[1], None)
+                    le_prefix = False
+                    if bound is None:
+                        # `x.to_le_bytes().iter().take(n).for_each(|b| dest.push_byte(*b))`: the first n little-endian bytes
+                        src_ = strip(outs[1][1])
+                        if isinstance(src_, tuple) and src_ and src_[0] == 'call' and src_[1] == 'take' and len(src_[3]) == 2:
+                            inner_ = strip(src_[3][0])
+                            for _ in range(4):
+                                if isinstance(inner_, tuple) and inner_ and inner_[0] == 'call' and inner_[1] in ('iter', 'into_iter', 'copied') and inner_[3]:
+                                    inner_ = strip(inner_[3][0])
+                                elif isinstance(inner_, tuple) and inner_ and inner_[0] == 'mutvar':
+                                    inner_ = strip(inner_[3])
+                                else:
+                                    break
+                            bevs_ = [e for e in events(outs[1][2]) if e[0] in ('byte', 'SET', 'enc', 'write')]
+                            if isinstance(inner_, tuple) and inner_ and inner_[0] == 'call' and inner_[1] == 'to_le_bytes' and inner_[3] and \
+                                    isinstance(strip(inner_[3][0]), tuple) and strip(inner_[3][0])[0] == 'field' and strip(strip(inner_[3][0])[1]) == ('self',) and \
+                                    len(bevs_) == 1 and bevs_[0][0] == 'byte' and strip(bevs_[0][1])[0] == 'elem':
+                                bound, body, le_prefix = src_[3][1], outs[1][2], True
                     nval = None
                     if bound is not None:
                         try:
@@ -204,7 +222,7 @@ def check_encoders(out, facts, S):
                         except ArithPanic:
                             nval = None
                     okm = tag == 3 + ((n_ref - 4) << 2) and nval == n_ref
-                    if okm:
+                    if okm and not le_prefix:
                         bevs = [e for e in events(body) if e[0] in ('byte', 'SET', 'enc', 'write')]
                         okm = len(bevs) == 2 and bevs[0][0] == 'byte' and sym.vstr(bevs[0][1]) == '(mut v as u8)' and bevs[1][0] == 'SET' and \
                             bevs[1][3] == 'ShrAssign' and sym.vstr(bevs[1][2]).startswith('8:') and sym.vstr(bevs[1][1]) == 'mut v'
